@@ -3,6 +3,7 @@ package main
 import (
 	"fmt"
 	"go/token"
+	"go/types"
 	"os"
 	"path/filepath"
 	"regexp"
@@ -181,6 +182,48 @@ func c20R2(c *Ctx) {
 	c.check(okRest, fname+"/argv-tail", pos, fname, "the arguments are elements 1.. of the same slice", "the arguments passed to exec.Command are not argv[1:] of the same slice")
 	h.argv = argv
 	// the slice is freshly made with the hook's length and filled by copy from the configuration
+	// … or produced in one step by append(nil, hook...) / slices.Clone(hook), which
+	// always allocate and copy
+	if cl, ok := inner.(*ssa.Call); ok {
+		oneStep := false
+		if b, isB := cl.Call.Value.(*ssa.Builtin); isB && b.Name() == "append" && len(cl.Call.Args) == 2 && hookPath(cl.Call.Args[1]) {
+			base := unwrapLoad(cl.Call.Args[0])
+			if isNilConst(base) {
+				oneStep = true
+			}
+			if sl, isSl := base.(*ssa.Slice); isSl {
+				if al, isAl := sl.X.(*ssa.Alloc); isAl {
+					if arr, isArr := deref(al.Type()).Underlying().(*types.Array); isArr && arr.Len() == 0 {
+						oneStep = true
+					}
+				}
+			}
+		}
+		if f := calleeObj(&cl.Call); f != nil && f.Pkg() != nil && (f.Pkg().Path() == "slices" || f.Pkg().Path() == "golang.org/x/exp/slices") && f.Name() == "Clone" && len(cl.Call.Args) == 1 && hookPath(cl.Call.Args[0]) {
+			oneStep = true
+		}
+		if oneStep {
+			c.ok(fname+"/argv-fresh", pos, fname, "argv is a fresh copy of config.Parsed.Media.Hook (append to nil / Clone)")
+			c.ok(fname+"/argv-copy", pos, fname, "filled by the same call")
+			for _, r := range refs(cl) {
+				switch x := r.(type) {
+				case *ssa.IndexAddr, *ssa.Slice, *ssa.DebugRef, *ssa.Range:
+				case *ssa.Call:
+					if b, ok := x.Call.Value.(*ssa.Builtin); ok && (b.Name() == "len" || b.Name() == "cap") {
+						continue
+					}
+					c.bad(fname+"/argv-escapes", P.InstrPos(r), fname, "argv is handed to "+objFullName(calleeObj(&x.Call))+" before exec")
+				case *ssa.Return:
+					if h.build == h.fn {
+						c.bad(fname+"/argv-escapes", P.InstrPos(r), fname, "argv is returned")
+					}
+				default:
+					c.bad(fname+"/argv-escapes", P.InstrPos(r), fname, "argv is used in an unexpected way before exec")
+				}
+			}
+			return
+		}
+	}
 	mk, isMake := inner.(*ssa.MakeSlice)
 	okMake := false
 	if isMake {
